@@ -441,7 +441,11 @@ class Summaries:
         if callee.fn is None:
             return {('opaque', ck)}
         if self.pure(ck):
-            return {('pred', self.canon_pred(ck), args)}
+            inner = self.fail_sources(ck, stack)
+            if not (inner and all(l[0] == 'pred' for l in inner)):
+                return {('pred', self.canon_pred(ck), args)}
+            # a pure function that constructs no error itself fails exactly when the predicates it consults fail
+            # (`RateKind::select(o, r)` = `decision(o, r)?` mapped to an enum): it is transparent
         pn = callee.fn.param_names()
         sub = {}
         for i, n in enumerate(pn):
